@@ -164,3 +164,175 @@ pub fn big(t: &[&str]) -> Res {
         _ => return Err(format!("bad big kind {}", t[1])),
     })
 }
+
+// ---------------------------------------------------------------------------------------------
+// `bigq <kind> <n> <seed>`: a self-checking query request on a large value: the structure is built from a
+// pseudo-random plain sequence kept beside it, and sampled queries (boundaries, neighbourhoods of multiples of
+// 2^16, random ones) are compared with the answers computed from the plain sequence. Used like `big`.
+
+struct Tally {
+    checked: usize,
+    bad: usize,
+    first: Option<String>,
+}
+impl Tally {
+    fn eq<T: PartialEq + std::fmt::Debug>(&mut self, what: &str, arg: usize, got: T, want: T) {
+        self.checked += 1;
+        if got != want {
+            self.bad += 1;
+            if self.first.is_none() {
+                self.first = Some(format!("{}({})={:?},want={:?}", what, arg, got, want).replace(' ', ""));
+            }
+        }
+    }
+    fn line(&self, n: usize) -> String {
+        format!("n={} checked={} bad={} first_bad={}", n, self.checked, self.bad, self.first.clone().unwrap_or_else(|| "none".into()))
+    }
+}
+fn sample_points(limit: usize, rng: &mut Rng, k: usize) -> Vec<usize> {
+    // points in [0, limit]: the ends, neighbourhoods of multiples of 2^16 and of powers of two, random ones
+    let mut v = vec![0, 1, 2, 63, 64, 65, 511, 512, 513, limit, limit.saturating_sub(1), limit.saturating_sub(2), limit / 2];
+    let mut m = 65536;
+    while m <= limit && v.len() < 400 {
+        v.extend([m - 1, m, m + 1]);
+        m += 65536 * (1 + limit / (65536 * 64));
+    }
+    let mut p = 1024;
+    while p <= limit {
+        v.extend([p - 1, p, p + 1]);
+        p *= 2;
+    }
+    for _ in 0..k {
+        v.push(rng.below(limit as u64 + 1) as usize);
+    }
+    v.retain(|&x| x <= limit);
+    v.sort();
+    v.dedup();
+    v
+}
+fn bits_check<B: BAccess + Rank + Select + NumBits>(b: &B, bits: &[bool], rng: &mut Rng, zeros_too: bool) -> String {
+    let n = bits.len();
+    let ones: Vec<usize> = (0..n).filter(|&i| bits[i]).collect();
+    let zeros: Vec<usize> = if zeros_too { (0..n).filter(|&i| !bits[i]).collect() } else { vec![] };
+    let mut t = Tally { checked: 0, bad: 0, first: None };
+    t.eq("num_bits", 0, b.num_bits(), n);
+    t.eq("num_ones", 0, b.num_ones(), ones.len());
+    for p in sample_points(n, rng, 600) {
+        t.eq("rank1", p, b.rank1(p), Some(ones.partition_point(|&x| x < p)));
+        if zeros_too {
+            t.eq("rank0", p, b.rank0(p), Some(zeros.partition_point(|&x| x < p)));
+        }
+        t.eq("access", p, b.access(p), if p < n { Some(bits[p]) } else { None });
+    }
+    t.eq("rank1", n + 1, b.rank1(n + 1), None);
+    for k in sample_points(ones.len(), rng, 600) {
+        t.eq("select1", k, b.select1(k), ones.get(k).copied());
+    }
+    if zeros_too {
+        for k in sample_points(zeros.len(), rng, 600) {
+            t.eq("select0", k, b.select0(k), zeros.get(k).copied());
+        }
+    }
+    t.line(n)
+}
+
+pub fn bigq(t: &[&str]) -> Res {
+    if t.len() < 4 {
+        return Err("bigq <kind> <n> <seed>".into());
+    }
+    let n = num(t[2])?;
+    let seed = num(t[3])? as u64;
+    let mut rng = Rng(seed ^ (n as u64).rotate_left(29) ^ 0x51ed);
+    let mode = seed % 4;
+    macro_rules! tryb {
+        ($e:expr) => {
+            match $e {
+                Ok(v) => v,
+                Err(_) => return Ok("ctor-err".into()),
+            }
+        };
+    }
+    Ok(match t[1] {
+        "r9" => {
+            let bits = rbits(n, &mut rng, mode);
+            let r = Rank9Sel::new(BitVector::from_bits(bits.iter().copied()));
+            let r = match seed / 4 % 3 { 0 => r, 1 => r.select1_hints(), _ => r.select1_hints().select0_hints() };
+            bits_check(&r, &bits, &mut rng, true)
+        }
+        "da" => {
+            let bits = rbits(n, &mut rng, mode);
+            bits_check(&DArray::from_bits(bits.iter().copied()).enable_rank().enable_select0(), &bits, &mut rng, true)
+        }
+        "sa" => {
+            let bits = rbits(n, &mut rng, if mode == 2 { 0 } else { mode });
+            bits_check(&SArray::from_bits(bits.iter().copied()).enable_rank(), &bits, &mut rng, false)
+        }
+        "ef" => {
+            let gaps = rints(n, &mut rng, 1 + (seed % 20) as u32);
+            let mut acc = 0usize;
+            let vals: Vec<usize> = gaps.iter().map(|g| { acc += g; acc }).collect();
+            let universe = acc + 1;
+            let mut b = tryb!(EliasFanoBuilder::new(universe, n));
+            tryb!(b.extend(vals.iter().copied()));
+            let e = b.build().enable_rank();
+            let mut t = Tally { checked: 0, bad: 0, first: None };
+            t.eq("len", 0, e.len(), n);
+            for k in sample_points(n, &mut rng, 600) {
+                t.eq("select", k, e.select(k), vals.get(k).copied());
+                if k < n {
+                    t.eq("delta", k, e.delta(k), Some(if k == 0 { vals[0] } else { vals[k] - vals[k - 1] }));
+                }
+            }
+            for p in sample_points(universe - 1, &mut rng, 600) {
+                let lt = vals.partition_point(|&x| x < p);
+                t.eq("rank", p, e.rank(p), Some(lt));
+                let le = vals.partition_point(|&x| x <= p);
+                t.eq("predecessor", p, e.predecessor(p), if le == 0 { None } else { Some(vals[le - 1]) });
+                t.eq("successor", p, e.successor(p), vals.get(lt).copied());
+            }
+            t.line(n)
+        }
+        "cv" | "db" | "do" | "ps" => {
+            let xs: Vec<usize> = match t[1] {
+                "cv" => { let w = 1 + (seed % 64) as u32; (0..n).map(|_| (rng.next() >> (64 - w)) as usize).collect() }
+                "ps" => rints(n, &mut rng, 20),
+                _ => rints(n, &mut rng, 8 + (seed % 56) as u32),
+            };
+            let mut t2 = Tally { checked: 0, bad: 0, first: None };
+            let pts = sample_points(n, &mut rng, 1500);
+            match t[1] {
+                "cv" => { let v = tryb!(CompactVector::from_slice(&xs)); t2.eq("len", 0, v.len(), n); for k in pts { t2.eq("get_int", k, v.get_int(k), xs.get(k).copied()); } }
+                "db" => { let v = tryb!(DacsByte::from_slice(&xs)); t2.eq("len", 0, v.len(), n); for k in pts { t2.eq("access", k, v.access(k), xs.get(k).copied()); } }
+                "do" => { let v = tryb!(DacsOpt::from_slice(&xs, None)); t2.eq("len", 0, v.len(), n); for k in pts { t2.eq("access", k, v.access(k), xs.get(k).copied()); } }
+                _ => { let v = tryb!(PrefixSummedEliasFano::from_slice(&xs)); t2.eq("len", 0, v.len(), n); t2.eq("sum", 0, v.sum(), xs.iter().sum::<usize>()); for k in pts { t2.eq("access", k, v.access(k), xs.get(k).copied()); } }
+            }
+            t2.line(n)
+        }
+        "wm" | "wmd" => {
+            let xs = rints(n, &mut rng, 1 + (seed % 12) as u32);
+            let cv = tryb!(CompactVector::from_slice(&xs));
+            fn go<B: BAccess + BBuild + NumBits + Rank + Select>(w: &WaveletMatrix<B>, xs: &[usize], rng: &mut Rng) -> String {
+                let n = xs.len();
+                let mut t = Tally { checked: 0, bad: 0, first: None };
+                t.eq("len", 0, w.len(), n);
+                for k in sample_points(n, rng, 400) {
+                    t.eq("access", k, w.access(k), xs.get(k).copied());
+                }
+                for _ in 0..12 {
+                    let c = xs[rng.below(n as u64) as usize];
+                    let occ: Vec<usize> = (0..n).filter(|&i| xs[i] == c).collect();
+                    for p in sample_points(n, rng, 60) {
+                        t.eq("rank", p, w.rank(p, c), Some(occ.partition_point(|&x| x < p)));
+                    }
+                    for k in sample_points(occ.len(), rng, 60) {
+                        t.eq("select", k, w.select(k, c), occ.get(k).copied());
+                    }
+                }
+                t.line(n)
+            }
+            if n == 0 { return Ok("ctor-err".into()); }
+            if t[1] == "wm" { go(&tryb!(WaveletMatrix::<Rank9Sel>::new(cv)), &xs, &mut rng) } else { go(&tryb!(WaveletMatrix::<DArray>::new(cv)), &xs, &mut rng) }
+        }
+        _ => return Err(format!("bad bigq kind {}", t[1])),
+    })
+}
